@@ -433,6 +433,25 @@ def run_property(pid, tier, obs, units, seed, level='proof', assumptions=(), tru
         with concurrent.futures.ThreadPoolExecutor(max_workers=jobs) as ex:
             results = list(ex.map(lambda o: run_ob(o, work), order))
         results.sort(key=lambda r: r['id'])
+        second = []
+        if tier == 'thorough':
+            # thorough tier: a seed-chosen 10 % of the discharged obligations are discharged again with a second SAT back end (cadical);
+            # a disagreement is a tool problem, reported as undecided, never as a violation
+            passed = [o for o in obs if any(r['id'] == o.id and r['status'] == 'pass' for r in results) and '--sat-solver' not in o.flags and not o.smt and not o.solver]
+            pick = random.Random(seed + 1).sample(passed, min(len(passed), max(1, len(passed) // 10))) if passed else []
+            def again(o):
+                saved = list(o.flags); o.flags = saved + ['--sat-solver', 'cadical']
+                try:
+                    return run_ob(o, os.path.join(work, 'second'))
+                finally:
+                    o.flags = saved
+            with concurrent.futures.ThreadPoolExecutor(max_workers=jobs) as ex:
+                second = list(ex.map(again, pick))
+            for r2 in second:
+                if r2['status'] != 'pass':
+                    undecided.append(dict(id=r2['id'] + ' [second back end]', reason='cadical does not confirm what minisat discharged: %s %s' % (r2['status'], r2.get('reason', '')[:200])))
+    else:
+        second = []
     known = load_known_findings()
     baseline = load_baseline()
     violations, known_hits = [], []
@@ -533,6 +552,8 @@ def run_property(pid, tier, obs, units, seed, level='proof', assumptions=(), tru
         cov['notes'] = notes
     if sweep_ran:
         cov['native_sweep'] = sweep_ran
+    if tier == 'thorough':
+        cov['second_backend'] = dict(solver='cadical (cbmc --sat-solver cadical)', rechecked=[r2['id'] for r2 in second], confirmed=len([r2 for r2 in second if r2['status'] == 'pass']))
     ev = dict(property_id=pid, tier=tier, seed=seed, level=level, coverage=cov, assumptions=list(assumptions), wall_s=round(time.time() - t0, 1),
               violations=len(violations))
     if level == 'model_checking':
